@@ -183,3 +183,76 @@ def install(eng):
     eng.models["numpy"] = np
     eng.np = np
     return np
+
+
+# ---------------------------------------------------------------------------
+# aggregates over python lists / symbolic sequences of numbers (trusted
+# contracts of np.average / np.std / np.sum / np.min / np.max on 1-D input):
+# uninterpreted functions of (elements, length); arithmetic facts about them
+# are added only by the lemma units that prove them by induction.
+_AR = z3.ArraySort(z3.IntSort(), z3.RealSort())
+AGG = {nm: z3.Function("np_" + nm, _AR, z3.IntSort(), z3.RealSort())
+       for nm in ("average", "pstd", "sstd", "sum", "min", "max")}
+
+
+def seq_array(eng, v):
+    """(Array Int Real, length term) of a list-like value of numbers."""
+    if isinstance(v, SymSeq):
+        t = v.template
+        if not isinstance(t, (Sym, int, float)):
+            raise Unsupported("aggregate over a sequence of non-scalars")
+        tt = to_term(t, "real")
+        return z3.Lambda([v.i0], tt), to_term(v.length)
+    if isinstance(v, (list, tuple)):
+        arr = z3.K(z3.IntSort(), z3.RealVal(0))
+        for i, x in enumerate(v):
+            if isinstance(x, float) and (x != x or x in (float("inf"), float("-inf"))):
+                raise Unsupported("non-finite element in aggregate")
+            arr = z3.Store(arr, i, to_term(x, "real"))
+        return arr, z3.IntVal(len(v))
+    raise Unsupported(f"aggregate over {type(v).__name__}")
+
+
+def _agg(name):
+    def f(self, v, *a, **k):
+        if isinstance(v, VArr):
+            return getattr(self, "arr_" + name)(v, *a, **k)
+        eng = self.eng
+        if isinstance(v, (list, tuple)) and len(v) == 0:
+            if name in ("min", "max"):
+                raise PyRaise(PyExc(ValueError, ("zero-size array to reduction operation",)))
+            if name == "sum":
+                return np_scalar(0, "float64")
+            eng.event("np-empty-mean")
+            return float("nan")
+        fn = name
+        if name == "std":
+            ddof = k.get("ddof", 0)
+            if ddof == 0:
+                fn = "pstd"
+            elif ddof == 1:
+                fn = "sstd"
+            else:
+                raise Unsupported("np.std ddof")
+        elif k or a:
+            if name == "average" and not a and set(k) <= {"axis"} and k.get("axis") is None:
+                pass
+            else:
+                raise Unsupported(f"np.{name} with extra arguments")
+        if name == "mean":
+            fn = "average"
+        arr, n = seq_array(eng, v)
+        if isinstance(v, SymSeq):
+            if not eng.truth(wrap(n > 0)):
+                if name in ("min", "max"):
+                    raise PyRaise(PyExc(ValueError, ("zero-size array to reduction operation",)))
+                if name == "sum":
+                    return np_scalar(0, "float64")
+                eng.event("np-empty-mean")
+                return float("nan")
+        return SymReal(AGG[fn](arr, n), np=True)
+    return f
+
+
+for _nm in ("average", "std", "sum", "min", "max", "mean"):
+    setattr(NpModule, _nm, _agg(_nm))
